@@ -6,7 +6,7 @@ equality and deterministic-serialisation equality measured by the driver) and co
 Model/C11RoundTrip.v:rt_pkg P (import, slice resolution, export).  Streams: corpus, examples/generators/PDK, the design
 generator, the primitive / external-module parameter space, enumeration tables and names against the live functions.
 """
-import json, os, subprocess, itertools
+import json, os, subprocess, itertools, time
 from decimal import Decimal
 from . import core, design as D
 from .core import cz, clist, cbool
@@ -542,6 +542,7 @@ def run(run, tier, seed, replay=None):
         streams = {"replay": [replay["job"]]}
 
     for sname, jobs in streams.items():
+        t0 = time.time()
         solo = [j for j in jobs if j["source"] == "example"]
         rest = [j for j in jobs if j["source"] != "example"]
         outs = [core.run_worker("c11", dict(jobs=[j]), timeout=900)["results"][0] for j in solo]
@@ -560,10 +561,16 @@ def run(run, tier, seed, replay=None):
                 owner.append(ji)
         bad = core.coq_eval_cases("C11", sname, IMPORTS, "c11_case", [c_case(r) for r in cases], "run_cases chk_c11", chunk=40)
         report(run, sname, jobs, cases, owner, bad, src_err)
+        run.coverage["streams"][sname]["wall_s"] = round(time.time() - t0, 1)
 
     if replay is None:
+        t0 = time.time()
         tables(run, seed, quick)
+        t1 = time.time()
         pyeq(run, seed, quick)
+        run.coverage["streams"]["names"]["wall_s"] = round(t1 - t0, 1)       # enums + names
+        if "pyeq" in run.coverage["streams"]:
+            run.coverage["streams"]["pyeq"]["wall_s"] = round(time.time() - t1, 1)
     run.coverage["traces_validated_against_impl"] = run.coverage["evaluations"]
 
 
@@ -649,5 +656,67 @@ def tables(run, seed, quick):
                       found_input=False)
 
 
+
+# ------------------------------------------------------------------------------------------ pyeq: Model/C11Share.v:py_eq against the live ==
+def pvalue_of(v):
+    """the PACKAGE form (pval_json) of a job-level spelling as the exporter writes it for a dict-typed parameter"""
+    t = v[0]
+    if t == "int":
+        return ["int", v[1]]
+    if t == "float":
+        return ["dbl", v[1]]
+    if t in ("str", "lit"):
+        return ["lit", v[1]]
+    if t == "pre":
+        d = Decimal(v[1])
+        if d == d.to_integral_value() and -I63 <= int(d) < I63:
+            return ["pre", v[2], ["int", int(d)]]
+        return ["pre", v[2], ["str", str(d)]]
+    raise ValueError(v)
+
+
+def pyeq_pairs(seed, quick):
+    pool = []
+    for val in ["0", "1", "2", "-3", "1000", "1.5", "0.1", "0.001", "9007199254740992", "9007199254740993", "1E+22",
+                "1.0000000000000000000001", "1.00000000000000000001", "0.00000000000000000000049", "123456789.123456789"]:
+        for _, v in spellings(val):
+            pv = pvalue_of(v)
+            if pv not in pool:
+                pool.append(pv)
+    pool += [["dbl", float("inf").hex()], ["dbl", 5e-324.hex()], ["dbl", 1e22.hex()], ["dbl", (2.0 ** 53).hex()], ["int", I63 - 1], ["int", -I63],
+             ["lit", "x"], ["lit", ""], ["str", "2"], ["pre", "YOTTA", ["int", 1]], ["pre", "YOCTO", ["int", 1]],
+             ["pre", "YOCTO", ["str", "0.5"]], ["pre", "UNIT", ["str", "1E+30"]]]
+    small = [pv for k, pv in enumerate(pool) if k % 4 == 0] if quick else pool
+    pairs = [[a, b] for a in small for b in small]
+    r = core.rng(seed, "C11", "pyeq", 0)
+    for _ in range(300 if quick else 3000):
+        a = r.choice(pool)
+        b = r.choice(pool) if r.random() < 0.5 else pvalue_of(r.choice(spellings(r.choice(TWIN_VALUES)))[1])
+        pairs.append([a, b])
+    return pairs
+
+
 def pyeq(run, seed, quick):
-    pass
+    pairs = pyeq_pairs(seed, quick)
+    out = core.run_worker("c11", dict(jobs=[dict(source="pyeq", pairs=pairs)]))["results"][0]
+    if out["err"] is not None:
+        run.violation("C11:pyeq:live", f"live import_parameter_value / == failed: {out['err']}", dict(kind="spec-differs", err=out["err"]),
+                      found_input=False)
+        return
+    rows = out["rows"]
+    cs_ = [f"({c_val(a)}, {c_val(b)}, {cz(eq)})" for a, b, eq, heq in rows]
+    res = core.coq_eval_cases("C11", "pyeq", IMPORTS, "pyeq_case", cs_, "run_cases chk_pyeq", chunk=150)
+    bad = [(i, code) for i, code in res if code != 9]
+    opened = [i for i, code in res if code == 9]
+    decided = len(rows) - len(opened)
+    equal_diff = sum(1 for a, b, eq, heq in rows if eq == 1 and a != b)
+    run.stream("pyeq", len(rows), equal_diff, decided_by_model=decided, left_open_by_model=len(opened),
+               python_equal_but_different_in_package=equal_diff, of_which_hash_equal=sum(1 for a, b, eq, heq in rows if eq == 1 and a != b and heq),
+               python_raises=sum(1 for a, b, eq, heq in rows if eq == 2),
+               rule="non-trivial = Python says the two imported values are equal although the package values differ; oracle: the live "
+                    "import_parameter_value and ==; the model leaves Prefixed against float / str open (str(float), Decimal(text))")
+    if decided * 2 < len(rows):
+        run.violation("C11:coverage:pyeq-decided", f"py_eq decided only {decided} of {len(rows)} pairs", dict(kind="coverage"), found_input=False)
+    for i, code in bad[:1]:
+        run.violation(f"C11:pyeq:{json.dumps(rows[i][:2])}", f"Model/C11Share.v:py_eq disagrees with the live Python == on {rows[i]}",
+                      dict(kind="spec-differs", row=rows[i]), found_input=False)
